@@ -106,6 +106,8 @@ def run(chk: common.Check, tier: str):
                 "cache off}; the shipped meta-grammar parser on every .gram file; the generated Python parser on test "
                 "sources and invalid snippets in both passes; non-trivial = the run contains a failed invocation or a cache "
                 "hit; distinct by (grammar, input, configuration)")
+    rm.shipped_hypothesis(chk, "grammar_shape_ok", "C05_generated_parsers_keep_the_position_invariant",
+                           "forced items stand directly among the items of alternatives, no repetition of a cut, no underscore rule names")
     r = common.rng("c05")
     kn = gramgen.Knobs(terminals=("NAME", "NUMBER", "'+'", "','", "'if'", '"in"', "NEWLINE"), left_rec=True,
                        # explicit actions that are truthy whatever their variables hold (the falsy-explicit-action case is the recorded finding)
